@@ -291,9 +291,11 @@ Inductive dclass := DOk (m : message) | DExc (e : exc) | DHdr | DDec | DOther (s
 
 Definition is_xe_site (s : N) : bool := (s =? site_tag_write) || (s =? site_val_write) || (s =? site_read).
 
-Definition dec_class (c : ctx) (bytes : list N) (no_chksum permissive : bool) : dclass :=
+(* ubsan = true: the sanitized build (UB sites abort the run); false: the build without sanitizers,
+   where fast_atoi<int> wraps exactly as fast_atoi_i32 does (DECW cases of the tie) *)
+Definition dec_class_gen (ubsan : bool) (c : ctx) (bytes : list N) (no_chksum permissive : bool) : dclass :=
   match factory c real_caps bytes no_chksum permissive with
-  | Ok m => if msg_ub c m then DUb else if msg_dt_ub c m then DUbDate else DOk m
+  | Ok m => if ubsan && msg_ub c m then DUb else if ubsan && msg_dt_ub c m then DUbDate else DOk m
   | Exc e => DExc e
   | OOB s =>
       if is_xe_site s then
@@ -306,6 +308,7 @@ Definition dec_class (c : ctx) (bytes : list N) (no_chksum permissive : bool) : 
   | Diverge => DHang
   | Fuel => DFuel
   end.
+Definition dec_class := dec_class_gen true.
 
 (* encode(f8String&): EOk bytes | EExc | EOut (output[] overrun) | EOther *)
 Inductive eclass := EOk (b : list N) (m : message) | EExc (e : exc) | EOut | EOther (s : N) | EHang | EFuel.
